@@ -95,6 +95,8 @@ def make_function(spec, rec=None, twin=None):
             out.append(v)
         for kind, i, j, c, amp in spec.get("S", []):
             out[i] = out[i] + singular(kind, k[j], c, amp)
+        for i in spec.get("pos", []):          # strictly positive results (for optimize_log targets)
+            out[i] = 0.5 + out[i] * out[i]
         if twin is not None:
             j, amp = twin
             out[j] = out[j] * (1.0 + amp) + amp * math.cos(3.0 * k[0]) + 7.0 * amp
@@ -179,6 +181,18 @@ def _getjac_w(self, x, f0=None):
     return _orig_getjac(self, x, f0=f0)
 
 
+_orig_log10 = np.log10
+
+
+def _log10_w(x, *a, **k):
+    y = _orig_log10(x, *a, **k)
+    r = CUR["rec"]
+    if r is not None and np.ndim(x) == 0:
+        r["log10"].append((float(x), float(y)))
+    return y
+
+
+np.log10 = _log10_w
 xj.JacobianSolver.eval = _eval_w
 xj.JacobianSolver.step = _jstep_w
 xm.SVD.__init__ = _svd_init_w
@@ -188,7 +202,7 @@ xo.MeritFunctionForMatch.get_jacobian = _getjac_w
 
 
 def new_rec():
-    return {"f": [], "pen": [], "newton": [], "svdfail": [], "bro": [], "mcalls": 0, "jaccalls": 0, "jsteps": 0}
+    return {"f": [], "pen": [], "newton": [], "svdfail": [], "bro": [], "log10": [], "mcalls": 0, "jaccalls": 0, "jsteps": 0}
 
 
 # ---------------------------------------------------------------------------
@@ -204,23 +218,61 @@ class Act(xo.Action):
 
 
 def build(case, rec, twin=None):
+    """case["ctor"] selects rarely used constructor forms: VaryList / TargetList wrappers, scale= instead of
+    weight=, weight=None, a single Vary instead of a list, solver=, solver_options=, name=, show_call_counter="""
     n = len(case["x0"])
     names = [f"k{i}" for i in range(n)]
     cont = {nm: float(v) for nm, v in zip(names, case["x0"])}
     g = make_function(case["fun"], rec, twin)
+    cx = case.get("ctor", {})
+    used = set()
     vary = []
     for i, v in enumerate(case["vary"]):
-        vary.append(xo.Vary(names[i], container=cont, limits=(None if v["limits"] is None else tuple(v["limits"])),
-                            step=v["step"], weight=v["weight"],
-                            max_step=v["max_step"], tag=v["tag"], active=v["active"]))
+        kw = dict(limits=(None if v["limits"] is None else tuple(v["limits"])), step=v["step"], weight=v["weight"],
+                  max_step=v["max_step"], tag=v["tag"], active=v["active"])
+        if cx.get("vary_weight_none") and v["weight"] == 1.0:
+            kw["weight"] = None; used.add("Vary(weight=None)")
+        if cx.get("varylist"):
+            vary.append(xo.VaryList([names[i]], cont, **kw)); used.add("VaryList")
+        else:
+            vary.append(xo.Vary(names[i], container=cont, **kw))
     act = Act(g, cont, names)
-    targets = [xo.Target(i, t["value"], tol=t["tol"], weight=t["weight"], action=act, tag=t["tag"])
-               for i, t in enumerate(case["targets"])]
+    targets = []
+    for i, t in enumerate(case["targets"]):
+        kw = dict(tol=t["tol"], tag=t["tag"], optimize_log=bool(t.get("optimize_log", False)))
+        if t.get("optimize_log"):
+            used.add("Target(optimize_log=True)")
+        if cx.get("scale"):
+            kw["scale"] = t["weight"]; used.add("Target(scale=)")
+        elif cx.get("target_weight_none") and t["weight"] == 1.0:
+            kw["weight"] = None; used.add("Target(weight=None)")
+        else:
+            kw["weight"] = t["weight"]
+        if cx.get("targetlist"):
+            targets.append(xo.TargetList([i], value=t["value"], action=act, **kw)); used.add("TargetList")
+        elif cx.get("action_target"):
+            targets.append(act.target(i, t["value"], **kw)); used.add("Action.target()")
+        else:
+            targets.append(xo.Target(i, t["value"], action=act, **kw))
     o = case["opts"]
+    okw = {}
+    if cx.get("solver"):
+        okw["solver"] = "jacobian"; used.add("Optimize(solver='jacobian')")
+    if cx.get("solver_options"):
+        okw["solver_options"] = {"n_steps_max": 20}; used.add("Optimize(solver_options=)")
+    if cx.get("name"):
+        okw["name"] = "opt"; used.add("Optimize(name=)")
+    if cx.get("single_vary") and n == 1 and not cx.get("varylist"):
+        vary = vary[0]; used.add("Optimize(vary=<single Vary>)")
     CUR["rec"] = rec
     opt = xo.Optimize(vary=vary, targets=targets, restore_if_fail=o["restore_if_fail"],
                       assert_within_tol=o["assert_within_tol"], n_steps_max=o["n_steps_max"],
-                      check_limits=o.get("check_limits", True), show_call_counter=False, verbose=False)
+                      check_limits=o.get("check_limits", True), show_call_counter=bool(cx.get("show_call_counter", False)),
+                      verbose=False, **okw)
+    if cx.get("show_call_counter"):
+        used.add("Optimize(show_call_counter=True)")
+    if rec is not None:
+        rec["ctor_used"] = sorted(used)
     return opt, cont, names, make_function(case["fun"], None, twin)
 
 
@@ -274,22 +326,27 @@ def mk_sel(x):
 
 def ulps(a, b):
     a, b = float(a), float(b)
-    if a == b:
+    if a == b or (math.isnan(a) and math.isnan(b)):
         return 0.0
     if not (math.isfinite(a) and math.isfinite(b)):
         return float("inf")
     return abs(a - b) / (EPS * max(abs(a), abs(b), 2.0 ** -1000))
 
 
-def independent(g, case, knobs, ta):
-    """targets, per-target |err|, penalty of the point, evaluated from scratch"""
+def independent(g, case, knobs, ta, targets=None):
+    """targets, per-target |err| (linear residual: what the tolerances are about), penalty of the
+    point (log10 residual for active optimize_log targets), evaluated from scratch"""
+    targets = case["targets"] if targets is None else targets
     r = g(knobs)
-    errs = [r[i] - case["targets"][i]["value"] for i in range(len(r))]
+    errs = [r[i] - targets[i]["value"] for i in range(len(r))]
     pen2 = 0.0
     scale2 = 0.0
-    for i, t in enumerate(case["targets"]):
+    for i, t in enumerate(targets):
         if ta[i]:
-            pen2 += (errs[i] * t["weight"]) * (errs[i] * t["weight"])
+            e = errs[i]
+            if t.get("optimize_log"):
+                e = (math.log10(r[i]) - math.log10(t["value"])) if (r[i] > 0 and t["value"] > 0) else float("nan")
+            pen2 += (e * t["weight"]) * (e * t["weight"])
             sc = (abs(r[i]) + abs(t["value"])) * t["weight"]
             if math.isfinite(sc):
                 scale2 += sc * sc
@@ -354,8 +411,54 @@ def apply_op(opt, op):
         opt.enable(target=op[1], vary=op[2], vary_name=op[3])
     elif k == "disable":
         opt.disable(target=op[1], vary=op[2], vary_name=op[3])
+    elif k == "run_jacobian":
+        opt.run_jacobian(op[1])
+    elif k == "add_point":
+        opt.add_point_to_log(op[1])
+    elif k == "set":
+        _, what, i, attr, val = op
+        obj = (opt.targets if what == "target" else opt.vary)[i]
+        if attr == "limits" and val is not None:
+            val = tuple(val)
+        setattr(obj, attr, val)
+    elif k == "foreign":
+        foreign_call(opt, op[1], op[2])
     else:
         raise RuntimeError("unknown op " + k)
+
+
+MODELLED = {"step", "solve", "reload", "tag", "clear_log", "enable", "disable", "add_point_to_log", "run_jacobian"}
+NOT_CALLED = {"from_callable": "alternative constructor, not a call on a live optimizer",
+              "solve_homotopy": "re-assigns the target values itself while it runs (outside the properties)"}
+
+
+def foreign_call(opt, name, kw):
+    """any other public entry point of Optimize, with a tiny budget"""
+    if name == "get_merit_function":
+        view = opt.get_merit_function(**{k: (tuple(v) if k == "rescale_x" and v is not None else v) for k, v in kw.items()})
+        x = view.get_x()
+        view(x)
+        if not kw.get("return_scalar"):
+            view.get_jacobian(x)
+        view.get_x_limits()
+        return
+    if name == "set_knobs_from_x":
+        opt.set_knobs_from_x(opt._err._get_x())
+        return
+    if name in ("target_status", "vary_status", "target_mismatch"):
+        getattr(opt, name)(ret=True)
+        return
+    if name == "show":
+        import io, contextlib
+        with contextlib.redirect_stdout(io.StringIO()):
+            opt.show()
+        return
+    getattr(opt, name)(**kw)
+
+
+def public_api():
+    """public callables of Optimize, by introspection (so that the list stays current)"""
+    return sorted(n for n in dir(xo.Optimize) if not n.startswith("_") and callable(getattr(xo.Optimize, n)))
 
 
 def temp_disabled(opt, a):
@@ -386,8 +489,9 @@ def temp_disabled(opt, a):
 # ---------------------------------------------------------------------------
 
 def run_sequence(case, rec, twin=None, with_oracles=True):
+    case = copy.deepcopy(case)      # "set" operations edit the configuration the oracles judge against
     unit = all(v["weight"] == 1.0 for v in case["vary"])
-    out = {"status": "ok", "steps": [], "C09": [], "C10": [], "C15": [],
+    out = {"status": "ok", "steps": [], "C09": [], "C10": [], "C15": [], "foreign": [],
            "observations": {"temporary_flags_left_changed_by_raising_step": 0,
                             "container_outside_limits_after_raising_step": 0,
                             "container_left_on_unlogged_point_by_raising_step": 0}}
@@ -401,12 +505,20 @@ def run_sequence(case, rec, twin=None, with_oracles=True):
     out["init"] = observe(opt, cont, names, 0)
     prev_len = out["init"]["loglen"]
     tainted = False       # a step()/solve() raised without restoring: containers may hold an unaccepted point
+    reconf = False        # attributes of Target / Vary objects were re-assigned
+    no_limits = False     # the user (new limits) or a foreign call left a knob outside its limits: premise of C10 gone
+    row_cfg = [copy.deepcopy(case["targets"]) for _ in range(prev_len)]   # target configuration when each row was logged
     if with_oracles:
         bad = within_limits(case, [cont[nm] for nm in names])
         if bad:
             out["C10"].append({"what": "start point outside limits accepted by the constructor", "knobs": bad})
     for iop, op in enumerate(case["ops"]):
         kind = op[0]
+        exec_op = op
+        if kind == "run_jacobian":        # run_jacobian(n) is step(n): judged as such
+            op, kind = ["step", op[1], True, {}, False], "step"
+        elif kind == "add_point":         # add_point_to_log(tag) is tag(tag)
+            op, kind = ["tag", op[1]], "tag"
         e = opt._err
         kn_before = [float(cont[nm]) for nm in names]
         va_before = [bool(v.active) for v in e.vary]
@@ -416,17 +528,23 @@ def run_sequence(case, rec, twin=None, with_oracles=True):
         if len_before > 0:
             row0 = ([float(v) for v in opt._log["knobs"][0]], s2b(opt._log["vary_active"][0]), s2b(opt._log["target_active"][0]))
         if kind == "clear" and with_oracles:
-            out["C15"] += rows_oracle(opt, cont, names, g, case, unit, iop)
+            out["C15"] += rows_oracle(opt, cont, names, g, case, unit, iop, row_cfg, reconf)
             len_before = 0
         status = "ok"
         try:
-            apply_op(opt, op)
+            apply_op(opt, exec_op)
         except CaseTimeout:
             raise
         except Exception as ex:
             status = err_class(ex)
         if kind == "clear":
             prev_len = 0
+            row_cfg = []
+        if kind == "set" and status == "ok":
+            reconf = True
+            _, what, i_, attr, val = op
+            (case["targets"] if what == "target" else case["vary"])[i_][attr] = val
+            unit = all(v["weight"] == 1.0 for v in case["vary"])
         if with_oracles and status.startswith("other:") and kind == "step" and op[3]:
             out["C10"].append({"what": "step() with temporary enable_*/disable_* arguments raised " + status[6:] +
                                        " (the argument cannot be used)", "op": iop, "args": op[3]})
@@ -438,17 +556,29 @@ def run_sequence(case, rec, twin=None, with_oracles=True):
         ta_after = [bool(t.active) for t in e.targets]
         L = opt._log
         nrows = ob["loglen"]
+        while len(row_cfg) < nrows:
+            row_cfg.append(copy.deepcopy(case["targets"]))
+        if kind in ("set", "foreign"):
+            # not an operation of the properties' histories: only what it leaves behind matters
+            if within_limits(case, kn_after):
+                no_limits = True
+            if kind == "foreign":
+                out["foreign"].append([op[1], status])
+            if ob["ragged"]:
+                out["status"] = "ragged"
+                break
+            continue
         if with_oracles and not ob["ragged"]:
             # ---- C10: rows and containers inside the closed limits ----------------
             for i in range(len_before if kind != "clear" else 0, nrows):
-                bad = within_limits(case, [float(v) for v in L["knobs"][i]])
+                bad = [] if no_limits else within_limits(case, [float(v) for v in L["knobs"][i]])
                 if bad:
                     f = {"what": "log row outside limits", "op": iop, "row": i, "knobs": bad, "values": HL(L["knobs"][i])}
                     if tainted and fd_leftover(case, [float(v) for v in L["knobs"][i]], bad):
                         f["signature"] = FD_SIG
                     out["C10"].append(f)
             restored = kind == "solve" and status != "ok" and case["opts"]["restore_if_fail"]
-            if status == "ok" or restored:
+            if (status == "ok" or restored) and not no_limits:
                 bad = within_limits(case, kn_after)
                 if bad:
                     f = {"what": "containers outside limits after the call", "op": iop, "knobs": bad, "values": HL(kn_after)}
@@ -464,6 +594,8 @@ def run_sequence(case, rec, twin=None, with_oracles=True):
                         if v["max_step"] is None:
                             continue
                         a, b = float(L["knobs"][i - 1][j]), float(L["knobs"][i][j])
+                        if math.isnan(a) or math.isnan(b):
+                            continue        # a foreign call left a NaN knob: nothing to compare
                         d = abs(b - a)
                         bound = v["max_step"] * (1 + 4 * EPS) + 4 * EPS * max(abs(a), abs(b)) + 1.000001e-12 * v["weight"]
                         if not d <= bound:
@@ -562,11 +694,11 @@ def run_sequence(case, rec, twin=None, with_oracles=True):
             out["status"] = "ragged"
             break
     if with_oracles and out["status"] in ("ok", "ragged"):
-        out["C15"] += rows_oracle(opt, cont, names, g, case, unit, len(case["ops"]))
+        out["C15"] += rows_oracle(opt, cont, names, g, case, unit, len(case["ops"]), row_cfg, reconf)
     return out, opt
 
 
-def rows_oracle(opt, cont, names, g, case, unit, iop):
+def rows_oracle(opt, cont, names, g, case, unit, iop, row_cfg=None, reconf=False):
     """C15: reload(i) for every row of the current log, then evaluate
     independently.  Works on a deep copy so that the run is not disturbed."""
     fails = []
@@ -592,7 +724,7 @@ def rows_oracle(opt, cont, names, g, case, unit, iop):
             try:
                 o2.reload(iteration=i)
             except Exception as ex:
-                if unit:
+                if unit and not reconf:
                     fails.append({"what": "reload(i) raised", "at": iop, "row": i, "error": err_class(ex)})
                 o2 = copy.deepcopy(opt); e2 = o2._err; c2 = e2.vary[0].container
                 continue
@@ -610,14 +742,18 @@ def rows_oracle(opt, cont, names, g, case, unit, iop):
                               "va": [va, va_row], "ta": [ta, ta_row]})
                 continue
             try:
-                r, errs, p, scale = independent(g2, case, kn, ta_row)
+                r, errs, p, scale = independent(g2, case, kn, ta_row,
+                                                None if row_cfg is None or i >= len(row_cfg) else row_cfg[i])
             except UserFault:
                 continue
             p_row = float(L["penalty"][i])
             t_row = [float(v) for v in L["targets"][i]]
+            tcfg = case["targets"] if (row_cfg is None or i >= len(row_cfg)) else row_cfg[i]
+            # log10(res) - log10(value) cancels: libm rounding of the two logarithms is an absolute error
+            haslog = any(ta_row[k] and tcfg[k].get("optimize_log") for k in range(len(tcfg)))
             if math.isnan(p) and math.isnan(p_row):
                 pass
-            elif not abs(p - p_row) <= 1e-9 * max(p, p_row) + (0.0 if unit else 1e-9 * scale) + 1e-300:
+            elif not abs(p - p_row) <= 1e-9 * max(p, p_row) + (0.0 if (unit and not haslog) else 1e-9 * scale) + 1e-300:
                 fails.append({"what": "penalty of the row is not reproduced by an independent evaluation at reload(i)",
                               "at": iop, "row": i, "row_penalty": H(p_row), "recomputed": H(p), "alpha": L["alpha"][i]})
                 continue
@@ -669,7 +805,8 @@ def tables(rec):
     svdfail = uniq([[HL(c) for c in m] for m in rec["svdfail"]])
     bro = uniq([[[[HL(c) for c in key[0]], HL(key[1]), HL(key[2]), HL(key[3]), HL(key[4])], [HL(c) for c in jac]]
                 for key, jac in rec["bro"]])
-    return {"f": ft, "pen": pen, "newton": newton, "svdfail": svdfail, "bro": bro, "deterministic": det}
+    log10 = uniq([[H(x), H(y)] for x, y in rec["log10"]])
+    return {"f": ft, "pen": pen, "newton": newton, "svdfail": svdfail, "bro": bro, "log10": log10, "deterministic": det}
 
 
 def run_case(case):
@@ -708,6 +845,7 @@ def run_case(case):
     if nonfinite(rec, out):
         out["status"] = "nonfinite" if out["status"] in ("ok", "ragged") else out["status"]
     out["tables"] = tables(rec)
+    out["ctor_used"] = rec.get("ctor_used", [])
     out["counts"] = {"mcalls": rec["mcalls"], "jaccalls": rec["jaccalls"], "jsteps": rec["jsteps"],
                      "fcalls": len(rec["f"]), "lstsq": len(rec["newton"]), "bro": len(rec["bro"])}
     return out
@@ -718,7 +856,11 @@ def main():
     res = []
     for case in inp["cases"]:
         res.append(run_case(case))
-    json.dump({"results": res}, sys.stdout)
+    import inspect
+    sigs = {c.__name__: [p for p in inspect.signature(c.__init__).parameters if p != "self"]
+            for c in (xo.Vary, xo.Target, xo.VaryList, xo.TargetList, xo.Optimize)}
+    json.dump({"results": res, "public_api": public_api(), "modelled": sorted(MODELLED), "not_called": NOT_CALLED,
+               "ctor_signatures": sigs}, sys.stdout)
 
 
 if __name__ == "__main__":
